@@ -959,6 +959,36 @@ fn main() {
         },
     );
     {
+        // very short intervals next to the origin, many points, high exponents: every element a + (b - a) t^p is representable to
+        // rounding, a factor (b - a) / (n - 1)^p formed on its own is subnormal. Limits well inside the normal range.
+        let tiny: [(f64, f64); 4] = [(0.0, 1e-300), (1e-307, 3e-307), (-2e-305, 0.0), (0.0, 4e-290)];
+        let tps = [1.0, 4.0, 8.0];
+        let tns = [2usize, 17, 33, 64];
+        ctx.lattice(
+            "linspace / powspace on intervals of length 1e-300 .. 4e-290 next to 0: n in {2,17,33,64} x 4 intervals x p in {1,4,8}",
+            (tns.len() * tiny.len() * tps.len()) as u64,
+            |i| format!("{}", i),
+            |i, acc| {
+                let p = tps[(i % 3) as usize];
+                let (a, b) = tiny[((i / 3) % 4) as usize];
+                let n = tns[(i / 12) as usize];
+                acc.nontriv("interval of subnormal-adjacent length");
+                judge(acc, i, || format!("tiny interval n={} a={:e} b={:e} p={}", n, a, b, p), || {
+                    for (what, v) in [("linspace", Vector::linspace(a, b, n)), ("powspace", Vector::powspace(a, b, n, p))] {
+                        ensure!(v.size() == n && v[0] == a, "{}: size / first element", what);
+                        // "ends at b to within rounding": a few ulp of b (or of a when b = 0), plus one subnormal unit per operation
+                        let scale = a.abs().max(b.abs());
+                        ensure!((v[n - 1] - b).abs() <= 8.0 * f64::EPSILON * scale + 4e-323, "{}({:e}, {:e}, {}{}): last element {:e} is {:e} away from b", what, a, b, n, if what == "powspace" { format!(", {}", p) } else { String::new() }, v[n - 1], (v[n - 1] - b).abs());
+                        for k in 1..n {
+                            ensure!(v[k] >= v[k - 1], "{}: not monotone at {}", what, k);
+                        }
+                    }
+                    Ok(())
+                });
+            },
+        );
+    }
+    {
         let aa = [0.1, 1.7, -31.0, 3.0e-300, 1.5, -0.3, 1e10]; // normal range only: with subnormal spacing h = (b-a)/(n-1) itself rounds by whole units
         let ks = [0u64, 1, 2, 3, 5, 17, 80];
         ctx.lattice(
